@@ -51,8 +51,18 @@ def replay_state(args):
                 if np.any(x < lb - 1e-2 * (ub - lb)) or np.any(x > ub + 1e-2 * (ub - lb)):
                     bad.append(("C08.bounds", w, [lb.tolist(), ub.tolist()], x.tolist(), r))
                 pred = Kmat @ (A @ x + blv)
-                if np.linalg.norm(pred - b) > eps + 1e-5:
+                # default solver settings satisfy a constraint only to the solver's own feasibility tolerance (OSQP: 1e-5
+                # relative to the problem scale; residuals up to ~2e-4 observed): asserted up to 1e-3 here, tightly with CLARABEL below
+                if np.linalg.norm(pred - b) > eps + 1e-3:
                     bad.append(("C08.reproduces-target", w, b.tolist(), pred.tolist(), r))
+                if name in ("number", "var") and eps <= 1e-5:
+                    try:
+                        Xh, _ = est.fit_underdetermined(b[None, :].copy(), underdetermined_opt=opt, l2_eps=eps, solver="CLARABEL")
+                        predh = Kmat @ (A @ np.asarray(Xh, float)[0] + blv)
+                        if np.linalg.norm(predh - b) > eps * 1.05 + 1e-7:
+                            bad.append(("C08.reproduces-target", dict(solver="CLARABEL", **w), b.tolist(), predh.tolist(), r))
+                    except Exception as ex:
+                        bad.append(("C08.no-error", dict(exc=type(ex).__name__, solver="CLARABEL", **w), None, repr(ex)[:200], r))
                 if np.max(np.abs(np.asarray(Bp)[0] - pred)) > 1e-9 * (1 + np.max(np.abs(pred))):
                     bad.append(("C08.pred-identity", w, pred.tolist(), np.asarray(Bp)[0].tolist(), r))
                 slack = 10 * eps
